@@ -122,3 +122,25 @@ Theorem C02_equivalent_lps_have_the_same_optima : forall (m1 m2 : milp), milp_eq
   forall a, (sat a m1 /\ forall b, sat b m1 -> obj_le m1 a b) <-> (sat a m2 /\ forall b, sat b m2 -> obj_le m2 a b).
 Proof. exact milp_equiv_optimal. Qed.
 Print Assumptions C02_equivalent_lps_have_the_same_optima.
+
+(* ---- audit: ALL hypotheses of C02_kfd_assignment_explains_flow hold together (diamond, flows 2 and 3, one subpath constraint, k = 2),
+   and the conclusion is about two real layers with positive weights ---- *)
+Example C02_all_premises_hold : exists a : var -> Q,
+  PathEncProofs.wf_graph (p_graph (f_base (exI 2))) /\ p_allow_empty (f_base (exI 2)) = false /\
+  (forall u v, In (u, v) (g_edges (p_graph (f_base (exI 2)))) -> (exRank u < exRank v)%nat) /\ (forall v, (exRank v <= 3)%nat) /\
+  sat a (encode_kfd (exI 2)) /\
+  (sumq (fun i => a (W i) * inject_Z (xval a i (0, 1)%N)) (layers 2) == 2)%Q.
+Proof.
+  destruct ex_lp_feasible_2 as (a & Hsat). exists a.
+  split; [exact ex_wf|]. split; [reflexivity|]. split; [exact ex_rank|]. split; [exact ex_rank_le|]. split; [exact Hsat|].
+  exact (C02_kfd_rows_force_flow (exI 2) a Hsat (0, 1)%N ltac:(cbn; tauto) eq_refl).
+Qed.
+Print Assumptions C02_all_premises_hold.
+(* degenerate: k = 0 has no layers, the sum of the explained flow is 0, so the LP of an instance with a positive flow is unsatisfiable:
+   the theorems are not satisfied vacuously by "no paths" *)
+Example C02_k_zero_is_infeasible : ~ exists a, sat a (encode_kfd (exI 0)).
+Proof.
+  intros (a & Hsat). pose proof (C02_kfd_rows_force_flow (exI 0) a Hsat (0, 1)%N ltac:(cbn; tauto) eq_refl) as H.
+  vm_compute in H. discriminate.
+Qed.
+Print Assumptions C02_k_zero_is_infeasible.
